@@ -137,12 +137,14 @@ func TestMakeKnown(t *testing.T) {
 		"C11/zng/validate-skips-set-interior":                                          lit("zng", setInterior, true, ""),
 		"C11/zng/validate-misses-prim-length":                                          lit("zng", hx("1200 10 01"), true, ""),
 		"C11/zng/validate-misses-type-value":                                           lit("zng", hx("1300 1c 02 41"), true, ""),
+		"C11/zng/validate-misses-map-order":                                            lit("zng", hx("0300 03 09 09"+"1a00 1e 09 0204 0202 0202 0202"), true, ""),
 		"C11/zng/validate-misses-record-trailing":                                      lit("zng", recTrailing, true, ""),
 		"C11/panic@.(*Context).DecodeTypeValue:nil-deref":                              typeEdits([]byte{34, 2, 9}),
 		"C11/panic@.(*Context).DecodeTypeValue:makeslice":                              typeEdits(hx("1e ffffffffffffffffff01")),
 		"C11/panic@.(*Context).DecodeTypeValue:slice-bounds":                           typeEdits(hx("1e 01 ffffffffffffffffff01 61 09")),
 		"C11/panic@/vng.readMetadata":                                                  lit("vng", hx("564e4700 04000000 0000000000000000 0000000000000000"), false, ""),
 		"C11/panic@/vng.readMetadata[unmarshal-of-unvalidated-value]":                  byteMuts("meta"),
+		"C11/panic@/vng.readMetadata[unmarshal-type-mismatch]":                           byteMuts("meta"),
 		"C11/panic@/vng[nil-metadata-node]":                                            byteMuts("meta"),
 		"C11/panic@/vng.(*PrimitiveBuilder).ReadBytes":                                 uintEdits(1<<64 - 1),
 		"C11/panic@/vng.(*DictBuilder).ReadBytes":                                      uintEdits(1<<64 - 1),
